@@ -20,6 +20,7 @@ import e2_tree
 F32 = z3.Float32()
 DIST = z3.Function("built_distance", z3.BitVecSort(32), F32)
 NORM = z3.Function("normalized_distance", F32, F32)
+MARGIN = z3.Function("margin_at_split", z3.IntSort(), F32)
 
 INLINE = e2_tree.INLINE + [
     (re.compile(r"^<D as Distance>::pq_distance$"), r"^(distance::)?Distance::pq_distance$"),
@@ -347,7 +348,21 @@ def models_for_search(env_roots):
     # ---- geometry
     @reg(r"^<D as Distance>::margin_no_header$")
     def _(eng, st, callee, a, ty):
-        m = eng.fresh("margin", F32)
+        m = None
+        if st.env.get("margin_by_split"):
+            # two runs over the same forest and query must see the same margins: a function of the split
+            for x in a[:2]:
+                v = eng.deref(x) if isinstance(x, Ref) else x
+                while isinstance(v, Ref):
+                    v = eng.deref(v)
+                if isinstance(v, Agg) and v.kind == "Cow":
+                    v = v.f[0]
+                if isinstance(v, Opaque) and isinstance(v.data, dict) and v.data.get("tid") is not None:
+                    m = MARGIN(z3.IntVal(int(v.data["tid"])))
+            if m is None:
+                raise E.Unknown("margin of a normal without a node id in the two-run obligation")
+        else:
+            m = eng.fresh("margin", F32)
         st.env.setdefault("margins", []).append(m)
         return one(m)
 
@@ -500,6 +515,133 @@ def run_search(ctx, shape_names, two_trees, max_items, unlimited, deadline):
     return results
 
 
+def run_monotone(ctx, shape_names, two_trees, max_items, budgets, deadline):
+    """C03 budget monotonicity as a two-run (hyper-)property: for the same forest, query, count and
+    filter, and budgets k1 < k2, the result of the larger budget is at least as long and at no rank
+    farther than the result of the smaller one.  Both runs are executed from the MIR; distances are
+    one uninterpreted function of the id and margins one uninterpreted function of the split node, so
+    the two runs see the same geometry; every pair of paths is decided by z3."""
+    results = {"paths": 0, "violations": [], "unknown": [], "shapes": []}
+    fn = find_fn(ctx.fns, r"reader::.*::nns_by_leaf$")
+    queries, solver_s, encoded = 0, 0.0, set()
+    for sh, pre, store, roots in forest(shape_names, two_trees):
+        eng = E.Engine(ctx.fns, ctx.structs, ctx.enums, models_for_search(roots) + list(M.REGISTRY), INLINE,
+                       max_depth=3, max_steps=3000)
+        count = z3.BitVec("count", 64)
+        cand_some, cand = z3.Bool("candidates_is_some"), z3.BitVec("candidates", U)
+        items = pre.items
+        base = list(pre.cond) + [popcount(items, 8) <= BV(max_items, 8), z3.ULE(count, BV(4, 64))]
+        sm = M.satmul_uf(64)
+        runs = {}
+        label = sh.name + ("+bucket tree" if two_trees else "")
+        broken = False
+        for k in budgets:
+            sk = BV(k, 64)
+            dflt = z3.BitVec("DEFAULT_OVERSAMPLING", 64)     # the symbol the engine gives the associated const
+            pc = base + [dflt == 1, sm(sk, dflt) == sk]
+            reader = Agg("Reader", None, {0: Opaque("Database"), 1: z3.BitVec("index", 16), 2: Opaque("ItemIds"),
+                                          3: z3.BitVec("dimensions", 64), 4: items})
+            qb = Agg("QueryBuilder", None, {0: Opaque("reader"), 1: count, 2: Agg("Option", BV(1, 64), {0: sk}),
+                                            3: Agg("Option", BV(0, 64), {}),
+                                            4: Agg("Option", z3.If(cand_some, BV(1, 64), BV(0, 64)), {0: Ref(Cell(cand))})})
+            leaf = Agg("Leaf", None, {0: Opaque("header"), 1: Agg("Cow", BV(1, 64), {0: Opaque("query")})})
+            env = {"store": dict(store), "frozen": {}, "stored_items": items, "leafs": BV(0, U), "roots": roots,
+                   "tmp": {"puts": [], "deleted": [], "remap": []}, "margin_by_split": True}
+            args = [Ref(Cell(reader)), Ref(Cell(Opaque("RoTxn"))), Ref(Cell(leaf)), Ref(Cell(qb))]
+            finals = eng.run(fn, args, env=env, pc=pc, deadline=deadline, max_paths=20000)
+            outs = []
+            for f in finals:
+                results["paths"] += 1
+                if f.status != "return" or not z3.is_true(z3.simplify(f.value.disc == BV(0, 64))):
+                    # errors / panics / unknowns are bounded_search_wellformed's business; here they make
+                    # the pair undecidable
+                    if f.status in ("unknown", "unwind"):
+                        results["unknown"].append(f"{label}: budget {k}: {f.status}: {f.info}")
+                        broken = True
+                    continue
+                o = f.value.f[0].f["items"]
+                outs.append((list(f.pc), [x.f[0] for x in o]))
+            runs[k] = outs
+        if broken:
+            continue
+        n_pairs = 0
+        out_of_time = False
+        for k1 in budgets:
+            for k2 in budgets:
+                if k1 >= k2 or out_of_time:
+                    continue
+                for pc1, ids1 in runs[k1]:
+                    if out_of_time:
+                        break
+                    for pc2, ids2 in runs[k2]:
+                        if time.time() > deadline:
+                            results["unknown"].append(f"{label}: engine deadline reached")
+                            out_of_time = True
+                            break
+                        if len(ids2) >= len(ids1):
+                            worse = [of_gt(DIST(ids2[i]), DIST(ids1[i])) for i in range(len(ids1))]
+                            if not worse:
+                                continue
+                            bad = z3.Or(worse)
+                        else:
+                            bad = z3.BoolVal(True)
+                        n_pairs += 1
+                        try:
+                            ok, m = eng.check(pc1 + pc2, bad)
+                        except E.Unknown as e:
+                            results["unknown"].append(f"{label}: {e}")
+                            continue
+                        if ok:
+                            vals = e2_tree.model_values(m, pre, [("count", count), ("candidates_is_some", cand_some),
+                                                                 ("set:candidates", cand)])
+                            vals["distances"] = {i: str(m.eval(DIST(BV(i, 32)), model_completion=True)) for i in range(U)
+                                                 if (m.eval(items, model_completion=True).as_long() >> i) & 1}
+                            vals["budgets"] = [k1, k2]
+                            vals["returned_small"] = [m.eval(x, model_completion=True).as_long() for x in ids1]
+                            vals["returned_large"] = [m.eval(x, model_completion=True).as_long() for x in ids2]
+                            vals["margins"] = [str(m.eval(MARGIN(z3.IntVal(t)), model_completion=True)) for t in sorted(store)]
+                            vals["unlimited"] = False
+                            results["violations"].append({
+                                "shape": label, "pre": pre, "values": vals,
+                                "clause": (f"enlarging the budget from {k1} to {k2} shortens the result" if len(ids2) < len(ids1)
+                                           else f"enlarging the budget from {k1} to {k2} makes a rank worse")})
+        results["shapes"].append({"shape": label, "paths": sum(len(v) for v in runs.values()), "ok_paths": n_pairs,
+                                  "pairs_decided": n_pairs})
+        queries += eng.queries
+        solver_s += eng.solver_s
+        encoded |= set(E.short(n) for n in eng.encoded)
+    results["queries"], results["solver_s"], results["encoded"] = queries, round(solver_s, 2), sorted(encoded)
+    return results
+
+
+def monotone_obligation(o, tier, seed):
+    import e2
+    import native
+    from driver import Outcome
+    try:
+        ctx = e2.context(True)
+    except RuntimeError as e:
+        return [Outcome(o["id"], "mirsym", "inconclusive", str(e))]
+    if tier == "thorough":
+        cfgs = [(["bucket", "split(bucket,bucket)", "split(item,bucket)", "split(bucket,item)"], False, 3, [1, 2, 3]),
+                (["split(bucket,bucket)", "split(bucket,item)"], True, 2, [1, 2, 3, 4])]
+    else:
+        cfgs = [(["split(bucket,bucket)", "split(item,bucket)"], False, 2, [1, 2, 3]), (["split(bucket,item)"], True, 2, [1, 2, 3])]
+    total = None
+    for names, two, mx, budgets in cfgs:
+        r = run_monotone(ctx, names, two, mx, budgets, time.time() + (2400 if tier == "thorough" else 600))
+        if total is None:
+            total = r
+        else:
+            for k in ("paths", "queries"):
+                total[k] += r[k]
+            total["solver_s"] = round(total["solver_s"] + r["solver_s"], 2)
+            for k in ("violations", "unknown", "shapes"):
+                total[k] += r[k]
+            total["encoded"] = sorted(set(total["encoded"]) | set(r["encoded"]))
+    return e2_tree.outcomes_from(o, total, "monotone", native, e2, Outcome)
+
+
 def fp_to_float(txt):
     t = txt.strip()
     if t in ("+oo", "oo"):
@@ -516,6 +658,20 @@ def fp_to_float(txt):
     if m.group(2):
         v *= 2.0 ** int(m.group(2))
     return v
+
+
+def monotone_scenario(v):
+    """the forest and query of search_scenario, then the budget sweep of the native runner"""
+    base = search_scenario(v, False)
+    if base is None:
+        return None
+    lines = [l for l in base.splitlines() if not l.startswith("query ")]
+    vals = v["values"]
+    cand = "none"
+    if vals.get("candidates_is_some"):
+        cand = ",".join(map(str, vals.get("set:candidates", []))) or "-"
+    lines.append(f"monotone_check count={vals.get('count', 1)} candidates={cand} vec=1.0,0.0")
+    return "\n".join(lines) + "\n"
 
 
 def search_scenario(v, unlimited):
